@@ -115,6 +115,7 @@ Inductive group :=
 
 Record gotable := mkTable {
   tb_cases : list (Z * group);        (* decodeColumnValue: JDBC code -> case *)
+  tb_generic : bool;                  (* nil head, generic tail and decodeInteger are the recognised ones *)
   tb_str_b64 : bool;                  (* MarshalJSON: `case string: value = []byte(v)` present *)
   tb_time_rfc : bool;                 (* MarshalJSON: `case time.Time: value = v.Format(time.RFC3339Nano)` *)
   tb_use_number : bool;               (* UnmarshalJSON decodes with UseNumber *)
@@ -508,7 +509,7 @@ Definition emit_pairs : list (Z * kind) :=
    (91, KTime); (92, KTime); (93, KTime);
    (12, KStr); (1, KStr); (-1, KStr);
    (-1, KBytes); (1, KBytes); (-2, KBytes); (-3, KBytes); (-4, KBytes); (1111, KBytes)].
-Definition emitted_sqltypes : list Z := [1; 2; 3; 58].  (* INSERT UPDATE DELETE INSERT_ON_UPDATE *)
+Definition emitted_sqltypes : list Z := [1; 2; 3; 102].  (* INSERT UPDATE DELETE INSERT_ON_UPDATE *)
 
 Definition val_wf (v : gval) : bool :=
   match v with
@@ -520,8 +521,8 @@ Definition val_wf (v : gval) : bool :=
   | _ => false
   end.
 Definition col_ok (c : col) : bool :=
-  valid_utf8 (c_name c) && val_wf (c_val c)
-  && (kind_eqb (kind_of (c_val c)) KNil && fits W16 (c_type c)
+  valid_utf8 (c_name c) && val_wf (c_val c) && fits W16 (c_type c)
+  && (kind_eqb (kind_of (c_val c)) KNil
       || existsb (fun p => (fst p =? c_type c) && kind_eqb (snd p) (kind_of (c_val c))) emit_pairs).
 Definition image_ok (i : image) : bool :=
   valid_utf8 (i_table i) && existsb (Z.eqb (i_sqltype i)) emitted_sqltypes && forallb (forallb col_ok) (i_rows i).
@@ -544,8 +545,8 @@ Definition log_all_vals (p : gval -> bool) (u : ulog) : bool :=
 (* well-formedness of a regenerated table: what the proofs need of it *)
 Definition adequate (k : kind) (g : option group) : bool :=
   match k, g with
-  | _, Some (GrUnknown _) => false
   | KNil, _ => true
+  | _, Some (GrUnknown _) => false
   | KInt, Some GrFloat => false
   | KInt, _ => true
   | KFloat, Some GrFloat => true
@@ -559,7 +560,8 @@ Definition adequate (k : kind) (g : option group) : bool :=
 Definition no_unknown (T : gotable) : bool :=
   forallb (fun p => match snd p with GrUnknown _ => false | _ => true end) (tb_cases T).
 Definition wf_table (T : gotable) : bool :=
-  tb_str_b64 T && tb_use_number T && no_unknown T
+  tb_generic T && tb_str_b64 T && tb_use_number T && no_unknown T
   && forallb (fun p => adequate (snd p) (lookupZ (fst p) (tb_cases T))) emit_pairs
   && forallb (fun s => sql_parse T (sql_text T s) =? s) emitted_sqltypes
-  && forallb (fun s => valid_utf8 (sql_text T s)) emitted_sqltypes.
+  && forallb (fun s => valid_utf8 (sql_text T s)) emitted_sqltypes
+  && ckind_eqb (select T s_None) CNone.
